@@ -273,7 +273,7 @@ func execRelationalExprLessThan(context *exprContext, expr *grammar.Grammar) err
 	if leftNodeSetOk && rightNodeSetOk {
 		for _, leftNode := range leftNodeSet {
 			for _, rightNode := range rightNodeSet {
-				if GetCursorString(leftNode) < GetCursorString(rightNode) {
+				if getStringNumber(GetCursorString(leftNode)) < getStringNumber(GetCursorString(rightNode)) {
 					context.result = Bool(true)
 					return nil
 				}
@@ -316,7 +316,7 @@ func execRelationalExprLessThan(context *exprContext, expr *grammar.Grammar) err
 
 	if leftStringOk && rightNodeSetOk {
 		for _, rightNode := range rightNodeSet {
-			if leftString < String(GetCursorString(rightNode)) {
+			if leftString.Number() < getStringNumber(GetCursorString(rightNode)) {
 				context.result = Bool(true)
 				return nil
 			}
@@ -330,13 +330,27 @@ func execRelationalExprLessThan(context *exprContext, expr *grammar.Grammar) err
 
 	if leftNodeSetOk && rightStringOk {
 		for _, leftNode := range leftNodeSet {
-			if String(GetCursorString(leftNode)) < rightString {
+			if getStringNumber(GetCursorString(leftNode)) < rightString.Number() {
 				context.result = Bool(true)
 				return nil
 			}
 		}
 
 		context.result = Bool(false)
+		return nil
+	}
+
+	_, leftBoolOk := left.(Bool)
+
+	if leftBoolOk && rightNodeSetOk {
+		context.result = Bool(left.Number() < Bool(rightNodeSet.Bool()).Number())
+		return nil
+	}
+
+	_, rightBoolOk := right.(Bool)
+
+	if leftNodeSetOk && rightBoolOk {
+		context.result = Bool(Bool(leftNodeSet.Bool()).Number() < right.Number())
 		return nil
 	}
 
@@ -357,7 +371,7 @@ func execRelationalExprLessThanOrEqual(context *exprContext, expr *grammar.Gramm
 	if leftNodeSetOk && rightNodeSetOk {
 		for _, leftNode := range leftNodeSet {
 			for _, rightNode := range rightNodeSet {
-				if GetCursorString(leftNode) <= GetCursorString(rightNode) {
+				if getStringNumber(GetCursorString(leftNode)) <= getStringNumber(GetCursorString(rightNode)) {
 					context.result = Bool(true)
 					return nil
 				}
@@ -400,7 +414,7 @@ func execRelationalExprLessThanOrEqual(context *exprContext, expr *grammar.Gramm
 
 	if leftStringOk && rightNodeSetOk {
 		for _, rightNode := range rightNodeSet {
-			if leftString <= String(GetCursorString(rightNode)) {
+			if leftString.Number() <= getStringNumber(GetCursorString(rightNode)) {
 				context.result = Bool(true)
 				return nil
 			}
@@ -414,13 +428,27 @@ func execRelationalExprLessThanOrEqual(context *exprContext, expr *grammar.Gramm
 
 	if leftNodeSetOk && rightStringOk {
 		for _, leftNode := range leftNodeSet {
-			if String(GetCursorString(leftNode)) <= rightString {
+			if getStringNumber(GetCursorString(leftNode)) <= rightString.Number() {
 				context.result = Bool(true)
 				return nil
 			}
 		}
 
 		context.result = Bool(false)
+		return nil
+	}
+
+	_, leftBoolOk := left.(Bool)
+
+	if leftBoolOk && rightNodeSetOk {
+		context.result = Bool(left.Number() <= Bool(rightNodeSet.Bool()).Number())
+		return nil
+	}
+
+	_, rightBoolOk := right.(Bool)
+
+	if leftNodeSetOk && rightBoolOk {
+		context.result = Bool(Bool(leftNodeSet.Bool()).Number() <= right.Number())
 		return nil
 	}
 
@@ -441,7 +469,7 @@ func execRelationalExprGreaterThan(context *exprContext, expr *grammar.Grammar) 
 	if leftNodeSetOk && rightNodeSetOk {
 		for _, leftNode := range leftNodeSet {
 			for _, rightNode := range rightNodeSet {
-				if GetCursorString(leftNode) > GetCursorString(rightNode) {
+				if getStringNumber(GetCursorString(leftNode)) > getStringNumber(GetCursorString(rightNode)) {
 					context.result = Bool(true)
 					return nil
 				}
@@ -484,7 +512,7 @@ func execRelationalExprGreaterThan(context *exprContext, expr *grammar.Grammar) 
 
 	if leftStringOk && rightNodeSetOk {
 		for _, rightNode := range rightNodeSet {
-			if leftString > String(GetCursorString(rightNode)) {
+			if leftString.Number() > getStringNumber(GetCursorString(rightNode)) {
 				context.result = Bool(true)
 				return nil
 			}
@@ -498,13 +526,27 @@ func execRelationalExprGreaterThan(context *exprContext, expr *grammar.Grammar) 
 
 	if leftNodeSetOk && rightStringOk {
 		for _, leftNode := range leftNodeSet {
-			if String(GetCursorString(leftNode)) > rightString {
+			if getStringNumber(GetCursorString(leftNode)) > rightString.Number() {
 				context.result = Bool(true)
 				return nil
 			}
 		}
 
 		context.result = Bool(false)
+		return nil
+	}
+
+	_, leftBoolOk := left.(Bool)
+
+	if leftBoolOk && rightNodeSetOk {
+		context.result = Bool(left.Number() > Bool(rightNodeSet.Bool()).Number())
+		return nil
+	}
+
+	_, rightBoolOk := right.(Bool)
+
+	if leftNodeSetOk && rightBoolOk {
+		context.result = Bool(Bool(leftNodeSet.Bool()).Number() > right.Number())
 		return nil
 	}
 
@@ -525,7 +567,7 @@ func execRelationalExprGreaterThanOrEqual(context *exprContext, expr *grammar.Gr
 	if leftNodeSetOk && rightNodeSetOk {
 		for _, leftNode := range leftNodeSet {
 			for _, rightNode := range rightNodeSet {
-				if GetCursorString(leftNode) >= GetCursorString(rightNode) {
+				if getStringNumber(GetCursorString(leftNode)) >= getStringNumber(GetCursorString(rightNode)) {
 					context.result = Bool(true)
 					return nil
 				}
@@ -568,7 +610,7 @@ func execRelationalExprGreaterThanOrEqual(context *exprContext, expr *grammar.Gr
 
 	if leftStringOk && rightNodeSetOk {
 		for _, rightNode := range rightNodeSet {
-			if leftString >= String(GetCursorString(rightNode)) {
+			if leftString.Number() >= getStringNumber(GetCursorString(rightNode)) {
 				context.result = Bool(true)
 				return nil
 			}
@@ -582,13 +624,27 @@ func execRelationalExprGreaterThanOrEqual(context *exprContext, expr *grammar.Gr
 
 	if leftNodeSetOk && rightStringOk {
 		for _, leftNode := range leftNodeSet {
-			if String(GetCursorString(leftNode)) >= rightString {
+			if getStringNumber(GetCursorString(leftNode)) >= rightString.Number() {
 				context.result = Bool(true)
 				return nil
 			}
 		}
 
 		context.result = Bool(false)
+		return nil
+	}
+
+	_, leftBoolOk := left.(Bool)
+
+	if leftBoolOk && rightNodeSetOk {
+		context.result = Bool(left.Number() >= Bool(rightNodeSet.Bool()).Number())
+		return nil
+	}
+
+	_, rightBoolOk := right.(Bool)
+
+	if leftNodeSetOk && rightBoolOk {
+		context.result = Bool(Bool(leftNodeSet.Bool()).Number() >= right.Number())
 		return nil
 	}
 
